@@ -6,7 +6,6 @@ import (
 	"encoding/binary"
 	"fmt"
 	"reflect"
-	"unsafe"
 
 	"github.com/EdgeCast/vflow/reader"
 	"github.com/EdgeCast/vflow/zzverif/mck"
@@ -172,9 +171,7 @@ func step(r *reader.Reader, m *ref, work, pristine []byte, o op) (string, string
 			if !bytes.Equal(got.bytes, want.bytes) {
 				return "reader:" + o.kind + ":value", fmt.Sprintf("pos=%d op=%v: got % x want % x", pos0, o, got.bytes, want.bytes)
 			}
-			if o.n > 0 && unsafe.Pointer(&got.bytes[0]) != unsafe.Pointer(&work[pos0]) {
-				return "reader:" + o.kind + ":alias", fmt.Sprintf("pos=%d op=%v: returned slice does not alias buf[pos:pos+n]", pos0, o)
-			}
+			// (whether the octets are returned as a view of the buffer or as a copy is not part of the statement)
 		} else if got.val != want.val {
 			return "reader:" + o.kind + ":value", fmt.Sprintf("pos=%d op=%v: got %d want %d", pos0, o, got.val, want.val)
 		}
@@ -188,18 +185,40 @@ func step(r *reader.Reader, m *ref, work, pristine []byte, o op) (string, string
 	if r.ReadCount()+r.Len() != len(work) {
 		return "reader:" + o.kind + ":conservation", fmt.Sprintf("consumed+remaining=%d != %d", r.ReadCount()+r.Len(), len(work))
 	}
-	if !bytes.Equal(work, pristine) {
+	if pristine != nil && !bytes.Equal(work[:len(pristine)], pristine) {
 		return "reader:" + o.kind + ":buffer-written", "the underlying buffer was modified"
 	}
 	return "", ""
 }
 
-func shapeGuard() {
-	t := reflect.TypeOf(reader.Reader{})
-	if t.NumField() != 2 || t.Field(0).Type.Kind() != reflect.Slice || t.Field(1).Type.Kind() != reflect.Int {
-		fmt.Println("reader.Reader changed shape: the state-merge argument of C19 (state = position) no longer applies")
-		panic("shape")
+// implState renders EVERY field of the real Reader (whatever its shape) except the buffer contents:
+// two readers over the same buffer with equal renderings have equal futures, which is what merging
+// BFS states needs. ok=false if a field is of a kind that cannot be rendered by value (pointer, map,
+// interface ...): then states are not merged on it and the search is reported as not exhaustive.
+func implState(r *reader.Reader) (string, bool) {
+	v := reflect.ValueOf(r).Elem()
+	out := ""
+	for i := 0; i < v.NumField(); i++ {
+		f := v.Field(i)
+		switch f.Kind() {
+		case reflect.Int, reflect.Int8, reflect.Int16, reflect.Int32, reflect.Int64:
+			out += fmt.Sprintf("%s=%d;", v.Type().Field(i).Name, f.Int())
+		case reflect.Uint, reflect.Uint8, reflect.Uint16, reflect.Uint32, reflect.Uint64, reflect.Uintptr:
+			out += fmt.Sprintf("%s=%d;", v.Type().Field(i).Name, f.Uint())
+		case reflect.Bool:
+			out += fmt.Sprintf("%s=%v;", v.Type().Field(i).Name, f.Bool())
+		case reflect.String:
+			out += fmt.Sprintf("%s=%q;", v.Type().Field(i).Name, f.String())
+		case reflect.Slice:
+			if f.Type().Elem().Kind() != reflect.Uint8 {
+				return "", false
+			}
+			out += fmt.Sprintf("%s=[len %d];", v.Type().Field(i).Name, f.Len())
+		default:
+			return "", false
+		}
 	}
+	return out, true
 }
 
 func opNames(ops []op) []string {
@@ -215,17 +234,28 @@ func opNames(ops []op) []string {
 func bfsSpace(tier string) mck.Space {
 	bufs := mkBuffers()
 	return mck.FuncSpace{N: uint64(len(bufs)), F: func(idx uint64, c *mck.Ctx) {
-		shapeGuard()
 		b := bufs[idx]
 		ops := opsFor(len(b.data))
 		type st struct{ path []op }
-		seen := map[int]st{0: {}}
-		frontier := []int{0}
+		// a state = reference position + the real reader's own fields; the start state:
+		k0, mergeable := implState(reader.NewReader(workCopy(b.data)))
+		if !mergeable {
+			fmt.Println("reader.Reader holds a field that cannot be rendered by value: states are not merged, see the unmerged sequence space")
+			c.Incomplete()
+			return
+		}
+		type skey struct {
+			pos  int
+			impl string
+		}
+		seen := map[skey]st{{0, k0}: {}}
+		frontier := []skey{{0, k0}}
 		depth := 0
 		for len(frontier) > 0 {
-			var next []int
-			for _, pos := range frontier {
-				path := seen[pos].path
+			var next []skey
+			for _, cur := range frontier {
+				pos := cur.pos
+				path := seen[cur].path
 				for _, o := range ops {
 					work := workCopy(b.data)
 					r := reader.NewReader(work)
@@ -241,10 +271,15 @@ func bfsSpace(tier string) mck.Space {
 						continue
 					}
 					c.Outcome(fmt.Sprintf("%s:%v", o.kind, m.pos != pos))
-					if _, ok := seen[m.pos]; !ok {
-						np := append(append([]op{}, path...), o)
-						seen[m.pos] = st{np}
-						next = append(next, m.pos)
+					ik, _ := implState(r)
+					if nk := (skey{m.pos, ik}); len(seen) < 100000 {
+						if _, ok := seen[nk]; !ok {
+							np := append(append([]op{}, path...), o)
+							seen[nk] = st{np}
+							next = append(next, nk)
+						}
+					} else {
+						c.Incomplete()
 					}
 				}
 			}
@@ -339,6 +374,105 @@ func seqSpace(tier string) mck.Space {
 	}}
 }
 
+// wide: buffers around the integer-width boundaries (255/256, 65535/65536) and length arguments around
+// them: every op sequence of length 3 (thorough 4), unmerged; root = (buffer, first op).
+func wideBuffers() []buffer {
+	var bs []buffer
+	for _, L := range []int{255, 256, 257, 65535, 65536, 65537, 65600} {
+		b := make([]byte, L)
+		for i := range b {
+			b[i] = byte(i*31 + i>>8 + 1)
+		}
+		bs = append(bs, buffer{2, b})
+	}
+	return bs
+}
+
+func wideOps(L int) []op {
+	ops := []op{{"u8", 0}, {"u16", 0}, {"u32", 0}, {"u64", 0}, {"peek16", 0}, {"len", 0}, {"count", 0}}
+	seen := map[int]bool{}
+	for _, n := range []int{0, 1, 2, 127, 128, 254, 255, 256, 257, 32767, 32768, 65534, 65535, 65536, 65537, L - 1, L, L + 1} {
+		if seen[n] || n > L+1 {
+			continue
+		}
+		seen[n] = true
+		ops = append(ops, op{"read", n}, op{"peek", n})
+	}
+	return ops
+}
+
+func wideSpace(tier string) mck.Space {
+	bufs := wideBuffers()
+	D := 3
+	if tier == "thorough" {
+		D = 4
+	}
+	type root struct{ b, o1 int }
+	var roots []root
+	for bi, b := range bufs {
+		for i := range wideOps(len(b.data)) {
+			roots = append(roots, root{bi, i})
+		}
+	}
+	return mck.FuncSpace{N: uint64(len(roots)), F: func(idx uint64, c *mck.Ctx) {
+		rt := roots[idx]
+		b := bufs[rt.b]
+		ops := wideOps(len(b.data))
+		seq := make([]int, D)
+		seq[0] = rt.o1
+		work := workCopy(b.data)
+		var n, crossing uint64
+		var rec func(d int) bool
+		run := func() bool {
+			r := reader.NewReader(work)
+			m := &ref{buf: b.data}
+			for k := 0; k < D; k++ {
+				o := ops[seq[k]]
+				sig, msg := step(r, m, work, nil, o) // the buffer is compared once per sequence, below
+				if sig == "" && k == D-1 && !bytes.Equal(work[:len(b.data)], b.data) {
+					sig, msg = "reader:"+o.kind+":buffer-written", "the underlying buffer was modified"
+				}
+				if sig != "" {
+					var p []string
+					for _, s := range seq[:k] {
+						p = append(p, ops[s].String())
+					}
+					c.Violation("wide:"+sig, msg, map[string]interface{}{"buffer_octets": len(b.data), "path": p, "op": o.String()})
+					return false
+				}
+			}
+			if m.pos > 255 {
+				crossing++
+			}
+			n++
+			return true
+		}
+		rec = func(d int) bool {
+			if d == D {
+				return run()
+			}
+			for i := range ops {
+				seq[d] = i
+				if !rec(d + 1) {
+					return false
+				}
+			}
+			return true
+		}
+		rec(1)
+		c.Transitions(n * uint64(D))
+		c.Count("sequences", n)
+		c.Count("sequences_past_octet_255", crossing)
+		c.Nontrivial(mck.Hash64([]byte(fmt.Sprint(len(b.data), rt.o1))))
+		c.Depth(uint64(D))
+		if idx%53 == 0 {
+			c.Sample(func() interface{} {
+				return map[string]interface{}{"buffer_octets": len(b.data), "first_op": ops[rt.o1].String(), "then": fmt.Sprintf("all %d-op continuations over %d ops", D-1, len(ops))}
+			})
+		}
+	}}
+}
+
 func main() {
-	mck.Main(map[string]func(string) mck.Space{"bfs": bfsSpace, "seq": seqSpace})
+	mck.Main(map[string]func(string) mck.Space{"bfs": bfsSpace, "seq": seqSpace, "wide": wideSpace})
 }
